@@ -613,3 +613,45 @@ def network_hint(ctx):
         f = ctx.repo.func(qq)
         calls = [c for c in ast.walk(f) if isinstance(c, ast.Call) and unparse(c.func) == 'check_network_and_key']
         ctx.require(bool(calls), qq, 'the network of an imported key is not checked against the hint', f)
+
+
+@PROP.obligation('C12.meta-independent', canaries=[
+    mut.replace_expr('keys', 'HDKey.__init__', "len(kf['multisig']) == 1", "len(kf['multisig']) == 1 and not witness_type", 'multisig flag of the prefix honoured only without a witness type argument'),
+])
+def meta_independent(ctx):
+    """HDKey.__init__ on a formatted key: each piece of metadata that the version prefix encodes unambiguously (script type, witness type,
+    multisig flag) is taken over independently of the other arguments. The detection block is evaluated with a prefix that says
+    (p2wsh, segwit, multisig) once with and once without a witness_type argument: multisig must come out True in both."""
+    q = 'keys:HDKey.__init__'
+    fn = ctx.repo.func(q)
+    holder = None
+    for n in ast.walk(fn):
+        for field in ('body', 'orelse'):
+            stmts = getattr(n, field, None)
+            if isinstance(stmts, list) and any(isinstance(s, ast.Assign) and norm(s) == 'kf = get_key_format(import_key)' for s in stmts):
+                holder = stmts
+    if holder is None:
+        ctx.undecided('HDKey.__init__: format detection block not found')
+    for wt_arg, ms_arg in ((None, False), ('segwit', False), ('p2sh-segwit', False)):
+        hooks = dict(LAYOUT_HOOKS)
+        hooks['get_key_format'] = lambda interp, args, kwargs, st, node: {'format': 'hex', 'networks': ['bitcoin'], 'is_private': True, 'script_types': ['p2wsh'], 'witness_types': ['segwit'], 'multisig': [True]}
+        hooks['check_network_and_key'] = lambda interp, args, kwargs, st, node: 'bitcoin'
+        hooks['Network'] = lambda interp, args, kwargs, st, node: S(('net', term(args[0])))
+        it = Interp(ctx.repo, 'keys', hooks=hooks, self_cls='keys:HDKey')
+        st = State(env={'self': S(SELF), 'import_key': S(('var', 'import_key'), 'str'), 'witness_type': wt_arg, 'multisig': ms_arg, 'network': None, 'script_type': None,
+                        'chain': None, 'is_private': True, 'key_type': 'bip32', 'password': '', 'compressed': True})
+        it.frames.append([])
+        try:
+            end = it.exec_block(holder, st)
+        except AnalysisError as e:
+            ctx.undecided('HDKey.__init__: detection block not evaluable: %s' % str(e)[:100])
+        it.frames.pop()
+        if end is None:
+            ctx.undecided('HDKey.__init__: detection block always raises in the scenario')
+        got = {k: end.env.get(k) for k in ('multisig', 'witness_type', 'script_type')}
+        ctx.saw('prefix says (p2wsh, segwit, multisig); arguments witness_type=%s multisig=%s -> %s' % (wt_arg, ms_arg, {k: (v if not isinstance(v, S) else show(term(v))[:30]) for k, v in got.items()}))
+        ctx.require(got['multisig'] is True, q, 'with witness_type=%s the multisig flag of the prefix is not taken over (multisig=%s)' % (wt_arg, got['multisig']), fn,
+                    "HDKey('Zprv...', witness_type='segwit') comes back with multisig=False and re-exports as zprv")
+        ctx.require(got['script_type'] == 'p2wsh', q, 'with witness_type=%s the script type of the prefix is not taken over (%s)' % (wt_arg, got['script_type']), fn)
+        exp_wt = wt_arg or 'segwit'
+        ctx.require(got['witness_type'] == exp_wt, q, 'witness type is %s, expected %s' % (got['witness_type'], exp_wt), fn)
